@@ -17,7 +17,7 @@ LEVEL_NOTE = ("Lean theorems over a World model (several bandits plus the one mu
               "interpreter, under PYTHONHASHSEED in {0, 1, random}, and interleaved with the construction / training / prediction of "
               "other bandits that share policy tuple objects, with single-threaded numerical kernels.")
 
-PROFILE = {"name": "C04", "lp": G.CF_KINDS + G.LIN_KINDS, "np": [None] + G.NP_KINDS + ["tree", "radius"],
+PROFILE = {"name": "C04", "allow_scale": True, "lp": G.CF_KINDS + G.LIN_KINDS, "np": [None] + G.NP_KINDS + ["tree", "radius"],
            "labels": ["str", "int", "str", "float"],
            "weights": {"fit": 1, "pfit": 3, "query": 4, "add": 1.5, "rem": 1, "warm": 1.5}, "n_ops": (3, 8)}
 WORKER = os.path.join(common.VERIF, "harness", "c04_worker.py")
@@ -70,6 +70,17 @@ def gen(seed, i):
         return probs_scenario(seed, i)
     scn = G.gen_scenario(seed, i, PROFILE)
     npc = scn["cfg"].get("np")
+    import random
+    r2 = random.Random("%s/C04x/%s" % (seed, i))
+    if npc and npc["k"] in ("radius", "knn", "lsh", "clusters") and r2.random() < 0.3:
+        # several thread workers (results must not depend on them) and, for the exact neighbourhood policies,
+        # now and then a metric that scipy evaluates with data-dependent parameters
+        scn["cfg"]["n_jobs"] = r2.choice([2, 3])
+        scn["cfg"]["backend"] = "threading"
+        if npc["k"] in ("radius", "knn") and r2.random() < 0.5:
+            npc["metric"] = r2.choice(["seuclidean", "mahalanobis", "canberra", "cosine"])
+    if npc and npc["k"] == "clusters" and r2.random() < 0.4:
+        npc["mini"] = True
     if npc and npc["k"] == "tree":
         # a tree's random_state only matters when split candidates tie: train on duplicated feature columns,
         # query with diverging columns (DESIGN.md section 7, C04)
